@@ -323,6 +323,10 @@ class PeriodicMessageTask:
         """
         self.bus = bus
         self.period = period
+        if data is not None:
+            # Take a snapshot: can.Message keeps a bytearray by reference, and a
+            # caller modifying its buffer in place would make update() miss the change
+            data = bytearray(data)
         self.msg = can.Message(is_extended_id=can_id > 0x7FF,
                                arbitration_id=can_id,
                                data=data, is_remote_frame=remote)
